@@ -361,7 +361,7 @@ func (m *Machine) callVsym(caller *frame, fn *ssa.Function, args []Value) (Value
 	case "vsym_Exit":
 		panic(abort{abExit, "vsym_Exit"})
 	case "vsym_Go":
-		m.spawn(fr, fr.curPos, args[0], nil)
+		m.spawnT(fr, fr.curPos, args[0], nil, true)
 		return nil, true
 	case "vsym_Yield":
 		m.yield()
@@ -374,6 +374,43 @@ func (m *Machine) callVsym(caller *frame, fn *ssa.Function, args []Value) (Value
 		return nil, true
 	case "vsym_ExploreSchedules":
 		m.explore = true
+		return nil, true
+	case "vsym_Settle":
+		// wait until every other logical thread is blocked or finished (quiescence)
+		self := m.cur
+		m.blockUntil(func() bool {
+			for _, t := range m.threads {
+				if t == self || t.done {
+					continue
+				}
+				if t.ready == nil || t.ready() {
+					return false
+				}
+			}
+			return true
+		})
+		return nil, true
+	case "vsym_FieldInt64":
+		iv, ok := args[0].(Iface)
+		if !ok || iv.T == nil {
+			m.unsupported("vsym_FieldInt64: not a struct value")
+		}
+		st, ok := iv.T.Underlying().(*types.Struct)
+		sv, ok2 := iv.V.(Struct)
+		if !ok || !ok2 {
+			m.unsupported("vsym_FieldInt64: not a struct value")
+		}
+		name := str(1)
+		for i := 0; i < st.NumFields(); i++ {
+			if st.Field(i).Name() == name {
+				t := sv[i].(*term.Term)
+				if t.W < 64 {
+					t = term.SExt(t, 64)
+				}
+				return t, true
+			}
+		}
+		m.unsupported("vsym_FieldInt64: no field %s", name)
 		return nil, true
 	case "vsym_PreemptionBound":
 		m.preemptBound = int(fr.conc(args[0], "vsym_PreemptionBound"))
